@@ -247,6 +247,10 @@ def gen_c11(tier, seed):
         nfds = min(nfds, limit - 20)
         inclmax = 1 if i % 3 == 0 else 0
         o = dict(fams[i % len(fams)], ident=1, stop=KILL_POLICY)
+        if i % 7 == 3:
+            # fork mode: no exec will close the close-on-exec descriptors, the child side of the fork must
+            # come back from start with nothing but its streams and the exit handle all the same
+            o["fork"] = 1
         mask = r.choice([0, 0, 0, 1, 4, 7])
         if o.get("hlow"):
             mask = 0  # user handles must stay >= 3 (crossing them onto 0-2 is outside the quantifier)
@@ -289,6 +293,8 @@ def judge_c11(case, log):
     if not idents:
         return vs, obs, False
     obs["children_checked"] = 1
+    if m["opts"].get("fork"):
+        obs["fork_mode_children_checked"] = 1
     obs["limits"].add(m["limit"])
     fds = idents[0]["fds"]
     extra = [f for f in fds if f[0] > 2]
@@ -298,6 +304,21 @@ def judge_c11(case, log):
     if m["opts"].get("hlow"):
         obs["inheritable_user_handles"] = 1
     limit = m["limit"]
+    if m["opts"].get("fork"):
+        # child side of a fork-mode start: there is no exec, so what the three streams were made from (pipe ends,
+        # opened files, the caller's handles) is still open next to the exit handle - "the caller is responsible for
+        # closing" them - but nothing else of the parent may be: none of the descriptors the scenario opened
+        # beforehand, and not more than those four in all
+        for f in extra:
+            if f[0] in ext:
+                where = "limit-1" if f[0] == limit - 1 else "other"
+                V(vs, "C11", "inherited-descriptor:fork-mode:%s" % where, "the child side of a fork-mode start still has descriptor %d of the parent open (cloexec=%s); limit %d" % (f[0], ext.get(f[0]), limit))
+        inrange = [f for f in extra if f[0] < limit]   # (the harness keeps its own descriptors above the soft limit)
+        if len(inrange) > 4:
+            V(vs, "C11", "fork-mode-child-keeps-descriptors", "the child side of a fork-mode start has %d descriptors besides 0-2: %s" % (len(inrange), [f[0] for f in inrange][:12]))
+        if len(fifos) == 0:
+            V(vs, "C11", "exit-handle-missing", "the fork-mode child has no exit handle (descriptors: %s)" % [f[0] for f in fds])
+        return vs, obs, True
     for f in others:
         where = "limit-1" if f[0] == limit - 1 else "other"
         V(vs, "C11", "inherited-descriptor:%s" % where, "the program sees descriptor %d (mode %o) besides 0-2 and the exit handle; limit %d, cloexec=%s" % (f[0], f[4], limit, ext.get(f[0])))
